@@ -22,7 +22,7 @@ SPEC = docsweep.Spec(
           "vocabulary / escape check of every html paragraph and strip+unescape(html) == plain; "
           "non-trivial = has formatting and (markup characters or link or nested paragraph); distinct = package bytes"),
     knobs={"headings": 0.35, "links": 0.35, "nested_pars": 0.25},
-    edge=["link_mixed_format"],
+    edge=["link_mixed_format", "textbox_in_link"],
     project=project,
     oracle=oracles.o_html,
     nontrivial=lambda fs: bool({f for f in fs if f.startswith("fmt_")}) and bool(fs & {"hyperlink", "nested_par", "heading", "corpus"}),
